@@ -30,6 +30,8 @@ CONSTANTS
   Universe = "{universe}"
   TypeDepth0 = {typedepth}
   MaxArgs = {maxargs}
+  RichArgs = {rich}
+  MaxItems = {maxitems}
   Target = {target}
   MinDecls = 1
   MaxNsDepth = 3
@@ -58,8 +60,9 @@ def simulate(n, seed, target=12, nsdepth=3, members=6, profile="parse", module="
     return _cases(res, "sim(seed=%d,target=%d,profile=%s)" % (seed, target, profile)), res
 
 
-def exhaustive(universe, typedepth=0, maxargs=2, target=2, members=1, timeout=1800, coverage=False):
+def exhaustive(universe, typedepth=0, maxargs=2, target=2, members=1, timeout=1800, coverage=False, rich=False, maxitems=3):
     """All terminal states of a focused universe.  Returns (cases, TLCResult)."""
-    cfg = EXH_CFG.format(universe=universe, typedepth=typedepth, maxargs=maxargs, target=target, members=members)
+    cfg = EXH_CFG.format(universe=universe, typedepth=typedepth, maxargs=maxargs, target=target, members=members,
+                         rich="TRUE" if rich else "FALSE", maxitems=maxitems)
     res = tlc.run("IfaceExh", cfg_text=cfg, workers=1, timeout=timeout, coverage=coverage)
     return _cases(res, "exh(%s,d=%d,a=%d,t=%d,m=%d)" % (universe, typedepth, maxargs, target, members)), res
